@@ -18,7 +18,7 @@ ASSUMPTIONS = ["metamorphic: the same real code is run on (data, parameters) and
                "FA: m' = a m + b, U' = aU, V' = aV, D' = aD, Sigma' = a^2 Sigma", "k-means: x -> s R x + t with concrete rotation (3/5, 4/5) and scale s, symbolic translation"]
 EXHAUSTIVE = ["8 switch subsets (ML)", "MAP switch subsets", "scale vectors " + str([(2, -3), (0.5, 10), (-1, 1)])]
 OUTSIDE = ["symbolic scales (the products a^2 * floor make the floor comparisons non-linear)", "rounding", "sizes beyond (C,D)=(2,2)"]
-SCALES = {"quick": [(2.0, -3.0), (0.5, 10.0)], "thorough": [(2.0, -3.0), (0.5, 10.0), (-1.0, 1.0), (1e-3, 1e3)]}
+SCALES = {"quick": [(2.0, -3.0), (0.5, 10.0)], "thorough": [(2.0, -3.0), (0.5, 10.0), (-1.0, 1.0), (0.0009765625, 1024.0)]}
 KNOWN = "C05-map-variance-prior-mean-not-squared"
 
 
